@@ -807,7 +807,10 @@ func record(class string, r []byte, w *world, n int, pos int) {
 		_, err := sm.SplitDOs(r[:len(r)-2])
 		nontrivial = err == nil && len(r) > 2
 	}
-	evid.Case(class, nontrivial, fmt.Sprintf("%d|%s|%s", pos, w.cipher, bucket(n)), nil)
+	evid.CaseFn(class, nontrivial, fmt.Sprintf("%d|%s|%s", pos, w.cipher, bucket(n)), func() any {
+		return map[string]any{"alg": string(w.cipher), "kenc": hex.EncodeToString(w.kenc), "kmac": hex.EncodeToString(w.kmac),
+			"ssc_before_response": hex.EncodeToString(w.libSSC()), "presented_response": evid.Hex(r), "position": pos, "genuine_data_len": n}
+	})
 }
 
 // ---------------------------------------------------------------- the property
@@ -866,7 +869,7 @@ func (w *world) genuineExchange(label string) {
 	if w.lk.sent != sentBefore+1 {
 		evid.Fail(rt, "doapdu-transmissions", nil, "DoAPDU transmitted %d times", w.lk.sent-sentBefore)
 	}
-	evid.Case("genuine", len(data) > 0 || sw != 0x9000, fmt.Sprintf("%s|%s|%04x", w.cipher, bucket(len(data)), sw), nil)
+	evid.CaseFn("genuine", len(data) > 0 || sw != 0x9000, fmt.Sprintf("%s|%s|%04x", w.cipher, bucket(len(data)), sw), func() any { return p })
 	if msg := judge(p, out, err, w.libSSC()); msg != "" {
 		evid.Fail(rt, "genuine", p, "%s", msg)
 	}
